@@ -53,7 +53,7 @@ class AddressbookColorProperty(webdav.Property):
         el.text = resource.get_addressbook_color()
 
     async def set_value(self, href, resource, el):
-        resource.set_addressbook_color(el.text)
+        resource.set_addressbook_color(webdav._text_or_none(el))
 
 
 class HeaderValueProperty(webdav.Property):
